@@ -209,9 +209,10 @@ def isolate(op, replace: dict[int, Any] | None = None):
 
 
 class OpFailure:
-    __slots__ = ("op_name", "call_site", "signature", "kind", "rt", "isolated")
+    __slots__ = ("op_name", "call_site", "signature", "kind", "rt", "isolated", "iso")
 
-    def __init__(self, op, rt: RT, isolated: bool):
+    def __init__(self, op, rt: RT, isolated: bool, iso=None):
+        self.iso = iso  # the isolated module the failure was reproduced on
         self.op_name = op.name
         self.call_site = call_site(op)
         self.signature = signature(rt)
@@ -257,7 +258,7 @@ def reduce_failure(module, rt: RT) -> list[OpFailure]:
             if inner_op is not None and inner_op is not cl and inner_op is not iso and format_kind(inner_op) != "generic" \
                     and any(x is inner_op for x in cl.walk()):
                 named = inner_op
-        f = OpFailure(named, r, True)
+        f = OpFailure(named, r, True, iso)
         failing[id(o)] = f
         if (f.call_site, f.signature) not in seen_keys:
             seen_keys.add((f.call_site, f.signature))
